@@ -7,7 +7,7 @@
    real builders and [slice] to Array::slice / ArrayData::slice on every generated layout. *)
 From Coq Require Import List Arith NArith ZArith Bool.
 From AV Require Import Base.Bytes Model.C09_Layout Model.C02_Logical Model.C02_Equal Model.C02_Rows.
-From AV Require Import Proofs.C02_Slice Proofs.C02_Readback Proofs.C02_EqualNulls Proofs.C02_EqualPrim Proofs.C02_EqualBool Proofs.C02_EqualBin Proofs.C02_EqualList Proofs.C02_EqualListPrim Proofs.C02_EqualDict Proofs.C02_Rows.
+From AV Require Import Proofs.C02_Slice Proofs.C02_Readback Proofs.C02_EqualNulls Proofs.C02_EqualPrim Proofs.C02_EqualBool Proofs.C02_EqualBin Proofs.C02_EqualList Proofs.C02_EqualListPrim Proofs.C02_EqualDict Proofs.C02_Reflect Proofs.C02_Rows.
 Import ListNotations.
 
 (* ---- slicing is a window on the logical content: EVERY modelled type (Null, Boolean, fixed width,
@@ -152,6 +152,13 @@ Theorem equal_nulls_spec : forall a b ls rs n,
   equal_nulls a b ls rs n = true <-> (forall i, i < n -> slot_valid a (ls + i) = slot_valid b (rs + i)).
 Proof. exact equal_nulls_iff. Qed.
 Print Assumptions equal_nulls_spec.
+
+(* the executable relation evaluated by the specification ops (c02.eq.spec, the input check of
+   c02.congr.post) IS the relation of the property *)
+Theorem logically_equal_spec : forall a b,
+  logically_equal a b = true <-> (p_ty a = p_ty b /\ logical a = logical b).
+Proof. exact logically_equal_iff. Qed.
+Print Assumptions logically_equal_spec.
 
 (* ---- row-wise kernels commute with row selection whenever the kernel succeeds on the whole input *)
 Theorem rowwise_take : forall f xs ys idx,
